@@ -45,6 +45,13 @@ claim("C08", "Exactly-one-dispatch rule on every accepted control-frame path (op
       "handler errors returned, default handlers' WriteControl arguments, accepted close-code table over all 16-bit codes. Wire-order beyond sequential parsing is not decided.",
       NOTE, "path enumeration + value provenance on go/ssa; finite-domain table for close codes", "DESIGN.md §4 C08")
 
+claim("C16", "Ownership typestate over every path after each of the five connection acquisitions (dial, deadline wrapper, TLS wrapper, CONNECT dialer, Hijack): failing paths close the connection (directly, via the owning TLS/buffered wrapper, or via the deferred closure evaluated with the captured cell's value on that path), successful paths do not and return it; "
+      "per-direction deadline state shows nothing armed by the library survives success; wrap-order and context-derivation rules show the handshake deadline is on the first-hop connection before CONNECT/TLS. Timing itself and SOCKS internals are not decided.",
+      NOTE, "defer-aware resource-pairing (typestate) analysis by region path enumeration on go/ssa", "DESIGN.md §4 C16")
+claim("C20", "Typestate Get -> hold -> Put of the pooled write buffer on every path: Get dominated by validation guards and [writeBuf == nil]; Put guarded by the first-call test, followed by forgetting the buffer; every endMessage argument non-nil; every error/final exit of flushFrame passes endMessage; "
+      "every access to the buffer in the writer methods is preceded by evidence that the writer is alive; buffers are kept between messages only without a pool. The application's pool implementation is trusted.",
+      NOTE, "path-sensitive typestate / guard-dominance analysis on go/ssa with mod-sets", "DESIGN.md §4 C20")
+
 REASON_NOT_BUILT = "rules for this property are not built yet in this revision (see DESIGN.md §4 for the planned static rules); nothing is claimed"
 
 def main():
